@@ -23,6 +23,18 @@ WORK = os.path.join(VERIF, ".work")
 REPLAYS = os.path.join(VERIF, "replays")
 EVIDENCE = os.path.join(VERIF, "evidence")
 HARNESS_DIR = os.path.join(VERIF, "harness")
+# Instance mode (a tool for mutation testing, never used by the registered commands): with VERIF_INSTANCE=<name> and
+# VERIF_REPO=<scratch copy of the repository> everything a run writes goes under .build/inst/<name> and .work/inst/<name>,
+# and the harness is built from a copy of harness/ whose path dependency points at VERIF_REPO, so that several trees can be
+# checked side by side without touching /repo, /verif/evidence or /verif/replays.
+INSTANCE = os.environ.get("VERIF_INSTANCE")
+if INSTANCE:
+    BUILD = os.path.join(VERIF, ".build", "inst", INSTANCE)
+    WORK = os.path.join(VERIF, ".work", "inst", INSTANCE)
+    REPLAYS = os.path.join(WORK, "replays")
+    EVIDENCE = os.path.join(WORK, "evidence")
+    HARNESS_SRC = HARNESS_DIR
+    HARNESS_DIR = os.path.join(BUILD, "hsrc")
 RVH = os.path.join(BUILD, "harness", "debug", "rvh")
 REPO_TARGET = os.path.join(BUILD, "repo")
 SERVER_BIN = os.path.join(REPO_TARGET, "debug", "roughenough-server")
@@ -57,12 +69,26 @@ def _cargo_env():
     return env
 
 
+def _write_if_changed(path, text):
+    if not os.path.exists(path) or open(path).read() != text:
+        with open(path, "w") as f:
+            f.write(text)
+
+
 def build_harness():
     """(Re)build the harness and, through its path dependency, /repo's library with hooks."""
     t0 = time.time()
+    if INSTANCE:
+        os.makedirs(os.path.join(HARNESS_DIR, ".cargo"), exist_ok=True)
+        subprocess.run(["rsync", "-a", "--delete", os.path.join(HARNESS_SRC, "src") + "/", os.path.join(HARNESS_DIR, "src") + "/"], check=True)
+        toml = open(os.path.join(HARNESS_SRC, "Cargo.toml")).read().replace('path = "/repo"', 'path = "%s"' % REPO)
+        _write_if_changed(os.path.join(HARNESS_DIR, "Cargo.toml"), toml)
+        cfg = open(os.path.join(HARNESS_SRC, ".cargo", "config.toml")).read().replace('"../.build/harness"', '"%s"' % os.path.join(BUILD, "harness"))
+        _write_if_changed(os.path.join(HARNESS_DIR, ".cargo", "config.toml"), cfg)
     lock = os.path.join(HARNESS_DIR, "Cargo.lock")
     if not os.path.exists(lock):
-        shutil.copy(os.path.join(REPO, "Cargo.lock"), lock)
+        src_lock = os.path.join(HARNESS_SRC, "Cargo.lock") if INSTANCE and os.path.exists(os.path.join(HARNESS_SRC, "Cargo.lock")) else os.path.join(REPO, "Cargo.lock")
+        shutil.copy(src_lock, lock)
     env = _cargo_env()
     p = subprocess.run(["cargo", "build", "--offline", "--quiet", "--bin", "rvh"], cwd=HARNESS_DIR, env=env,
                        stdout=subprocess.PIPE, stderr=subprocess.STDOUT, text=True)
